@@ -12,6 +12,7 @@ import (
 	"math/rand/v2"
 	"sort"
 	"strings"
+	"unicode/utf16"
 
 	"github.com/formancehq/numscript/internal/verifsim/core"
 	"github.com/formancehq/numscript/internal/verifsim/gen"
@@ -29,6 +30,12 @@ type Msg struct {
 	Ver   int        `json:"ver,omitempty"`  // document version carried by open / change (per document, restarts at 1 after a close)
 	Kill  bool       `json:"kill,omitempty"` // subprocess tier: SIGKILL the server before this message, then restart and re-open
 	Cut   int        `json:"cut,omitempty"`  // subprocess tier with Kill: bytes of this frame written before the kill
+	// Ranged (change): if the server's initialize answer announces incremental synchronisation
+	// this change is sent as two ranged edits of ONE notification, the second positioned on
+	// the text the first one leaves (as the protocol defines contentChanges); Prev is the text
+	// the document must hold before. A server announcing full synchronisation gets the whole text.
+	Ranged bool   `json:"ranged,omitempty"`
+	Prev   string `json:"prev,omitempty"`
 }
 
 type Case struct {
@@ -131,11 +138,7 @@ func (m Msg) params(version int) any {
 		if m.Kind == "open" {
 			return map[string]any{"textDocument": map[string]any{"uri": m.URI, "languageId": "numscript", "version": vj, "text": m.Texts[0]}}
 		}
-		var ch []any
-		for _, t := range m.Texts {
-			ch = append(ch, map[string]any{"text": t})
-		}
-		return map[string]any{"textDocument": map[string]any{"uri": m.URI, "version": vj}, "contentChanges": ch}
+		return map[string]any{"textDocument": map[string]any{"uri": m.URI, "version": vj}, "contentChanges": m.contentChanges()}
 	}
 	if (m.Kind == "hover" || m.Kind == "definition" || m.Kind == "symbols") && style%3 == 0 {
 		// optional fields of the protocol that this server does not use
@@ -153,17 +156,58 @@ func (m Msg) params(version int) any {
 	case "open":
 		return map[string]any{"textDocument": map[string]any{"uri": m.URI, "languageId": "numscript", "version": version, "text": m.Texts[0]}}
 	case "change":
-		var ch []any
-		for _, t := range m.Texts {
-			ch = append(ch, map[string]any{"text": t})
-		}
-		return map[string]any{"textDocument": map[string]any{"uri": m.URI, "version": version}, "contentChanges": ch}
+		return map[string]any{"textDocument": map[string]any{"uri": m.URI, "version": version}, "contentChanges": m.contentChanges()}
 	case "hover", "definition":
 		return map[string]any{"textDocument": map[string]any{"uri": m.URI}, "position": map[string]any{"line": m.Line, "character": m.Char}}
 	case "symbols":
 		return map[string]any{"textDocument": map[string]any{"uri": m.URI}}
 	}
 	return map[string]any{"x": 1}
+}
+
+// endPos is the LSP position just after the last character of a text (UTF-16 columns).
+func endPos(text string) map[string]any {
+	line := strings.Count(text, "\n")
+	last := text[strings.LastIndex(text, "\n")+1:]
+	return map[string]any{"line": line, "character": len(utf16.Encode([]rune(last)))}
+}
+
+func (m Msg) contentChanges() []any {
+	if m.Ranged && serverSyncKind() == 2 && len(m.Texts) == 1 {
+		t := m.Texts[0]
+		const tail = "\n// tmp"
+		return []any{
+			map[string]any{"range": map[string]any{"start": map[string]any{"line": 0, "character": 0}, "end": endPos(m.Prev)}, "text": t + tail},
+			map[string]any{"range": map[string]any{"start": endPos(t), "end": endPos(t + tail)}, "text": ""},
+		}
+	}
+	var ch []any
+	for _, t := range m.Texts {
+		ch = append(ch, map[string]any{"text": t})
+	}
+	return ch
+}
+
+// normaliseRanged keeps the Ranged mark only where Prev is what the document holds at that
+// point of THIS history (a minimised history may have lost the update Prev came from).
+func normaliseRanged(msgs []Msg) []Msg {
+	out := append([]Msg(nil), msgs...)
+	latest := map[string]string{}
+	for i := range out {
+		m := &out[i]
+		switch m.Kind {
+		case "close":
+			delete(latest, m.URI)
+		case "open", "change":
+			if m.Kind == "change" && m.Ranged {
+				if cur, ok := latest[m.URI]; !ok || cur != m.Prev {
+					m.Ranged = false
+				}
+			}
+			latest[m.URI] = m.latestText()
+		}
+	}
+	return out
 }
 
 func (m Msg) body(id int) []byte {
@@ -346,6 +390,7 @@ func genHistory(r *rand.Rand, tier string) Case {
 			}
 			var texts []string
 			var d Doc
+			prev, hadPrev := latest[u]
 			for j := 0; j < k; j++ {
 				d = newText(u)
 				if j < k-1 && r.IntN(2) == 0 {
@@ -356,6 +401,9 @@ func genHistory(r *rand.Rand, tier string) Case {
 			}
 			version[u]++
 			c.Msgs = append(c.Msgs, Msg{Kind: "change", URI: u, Texts: texts, Spans: d.Spans, Valid: d.Valid, Ver: version[u]})
+			if k == 1 && hadPrev && r.IntN(3) == 0 {
+				c.Msgs[len(c.Msgs)-1].Ranged, c.Msgs[len(c.Msgs)-1].Prev = true, prev.Text
+			}
 		case 2, 3:
 			kind := "hover"
 			if r.IntN(5) < 2 {
@@ -522,6 +570,7 @@ func candidates(c Case) []Case {
 }
 
 func Execute(c Case, keepTrace bool, bin string) Result {
+	c.Msgs = normaliseRanged(c.Msgs)
 	switch c.Tier {
 	case "subproc":
 		return executeSubproc(c, keepTrace, bin)
